@@ -219,6 +219,9 @@ def length_mutations(b, fields, rng, nfill=3, whole=None):
         cur = get_field(b, f)
         m = (1 << f.bits) - 1
         vals = [("0", 0), ("max", m), ("+1", cur + 1), ("-1", cur - 1), ("x2", cur * 2), ("+4", cur + 4), ("-4", cur - 4)]
+        # small absolute values: around the sizes of the fixed parts (a section shorter than its fixed part + CRC, a
+        # descriptor loop shorter than one header; bin/gocover: the section_length 10..12 guard of psi/pmt.go was never reached)
+        vals += [("abs%d" % k, k) for k in range(1, 17)]
         ends = sorted(set(list(f.ends) + [len(b), whole]))
         for e in ends:
             for d, nm in ((-1, "before"), (0, "at"), (1, "past")):
